@@ -3,6 +3,8 @@ import SimuVerif.Model.Pipeline
 import SimuVerif.Model.Tissue
 import SimuVerif.Model.PipelineR
 import SimuVerif.Model.TissueR
+import SimuVerif.Model.TissueP
+import SimuVerif.Model.TissueD
 /-
   Model driver of C14 (assembled iteration of a single free cell): runs `Pipeline.cellIteration` at `Float`, i.e. the
   very definition the theorems of Properties/C14Pipeline.lean are about, from an initial state taken from the first
@@ -59,6 +61,25 @@ import SimuVerif.Model.TissueR
     O <iteration> <stepOkTR 0|1> <refineLive ∧ replayOk 0|1> <cellMeshOk of all refined cells 0|1> <splits> <collapses> <rebased 0|1> <swaps>
       <coupled used nodes after the contact phase> <used nodes with a contact force>
   an exception of the refiner / of rebase ends the answer with `X <kind>`; then END.
+
+  Assembled iteration of a TISSUE WITH remeshing AND removal of the cells below their minimum volume (`TissueP.tissueIterationP`,
+  Properties/C14Population.lean); the initial state is the first snapshot of `h_solver … pslots`:
+    tissuep <n> <every> <ncells> <swap 0|1>  dt damping lmin cutAdh cutRep samplingPeriod  <iteration> <file_number> <max_cell_id> time
+        per cell: <cell id> <local id> then as for `tissuer`
+  answer: H setup <0|1>, then for k = 0 … n, when k % every = 0 or k = n the lines `S`, `J`, `I <max_cell_id>`, and per cell
+  `C <cell id> <local id> …`, `R`, `B` of `h_solver … pslots`, and for k < n one line
+    O <iteration> <stepOkTP 0|1> <refineLive ∧ replayOk 0|1> <cellMeshOk of all refined cells 0|1> <splits> <collapses> <rebased 0|1> <swaps>
+      <coupled used nodes after the contact phase> <used nodes with a closest distance> <cells removed>
+      <used nodes of survivors whose coupling names a removed cell> <… names a cell whose position changed> ; <removed positions>
+  an exception ends the answer with `X <kind>`; an empty list ends the run; then END.
+  Assembled iteration of a TISSUE with remeshing, DIVISION ROUND (daughters recorded) and removal (`TissueD.tissueIterationD`,
+  Properties/C14Division.lean); the initial state is the first snapshot of `h_solver … dslots`:
+    tissued  … exactly as `tissuep` …  DSN <k>   then k records of the `DS` blocks of the harness:
+        DS <iteration> <nids> <cell ids of the list the divider left> <nfresh>  nfresh × (<cell id> area volume target_volume pressure
+            N … | F … | E … | FN … | FF … |  nn × attributes)            (the cells with an id ≥ the previous `max_cell_id_`)
+  answer: as `tissuep`; in an iteration with a record the list the model's division round leaves is printed as the harness prints it:
+  `DS <iteration>`, `J`, `I`, per cell `C`, `R`, `B`, `DE`; the `O` line is
+    O <iteration> <stepOkTD 0|1> <ready cells> <divisions> <cells removed> <splits> <collapses> <rebased 0|1>
 -/
 open Simu Simu.Forces Simu.Pipeline Driver
 
@@ -476,6 +497,212 @@ def simulate (out : IO.FS.Stream) (K : ConstsTR Float) (n every : Nat) (s0 : Sta
 
 end TissueRDrv
 
+/-! ### tissue with remeshing and removal -/
+namespace TissuePDrv
+open Simu.Remesh Simu.TissueR Simu.TissueP TissueDrv RemeshDrv TissueRDrv
+
+def pTissueP : P (ConstsTR Float × Nat × Nat × StateTP Float) := do
+  let n ← pNat; let every ← pNat; let nc ← pNat; let sw ← pNat
+  if every == 0 then failure
+  let dt ← pF; let damping ← pF; let lmin ← pF; let cutAdh ← pF; let cutRep ← pF; let sp ← pF
+  let it ← pNat; let fileNo ← pNat; let maxId ← pNat; let time ← pF
+  let cells ← pMany nc (do let id ← pNat; let lid ← pNat; let c ← pCellTR; pure ((⟨id, lid⟩ : Ident), c))
+  let i ← get
+  if i ≠ (← read).size then failure
+  let K : Tissue.Consts Float :=
+    { dt := dt, damping := damping, lmin := lmin, cutAdh := cutAdh, cutRep := cutRep,
+      dotAdh := cosDeg Gen.dotAdhDeg1, dotRep := cosDeg Gen.dotRepDeg1, big := dblMax, inf := dblInf, delta := Gen.gridDeltaFloat }
+  pure ({ base := K, samplingPeriod := sp, swapOn := sw != 0, maxIter := 1000000 }, n, every,
+        { base := { iter := it, time := time, fileNo := Int.ofNat fileNo, cells := (cells.toList.map (·.2)), defined := true },
+          idents := cells.toList.map (·.1), maxId := maxId })
+
+def showCellTP (d : Ident) (c : CellTR Float) : List String :=
+  [s!"C {d.cellId} {d.localId} {c.k.kind} {c.mesh.nodes.size} {c.mesh.faces.size} {showF c.area} {showF c.volume} {showF c.tvol} {showF c.pressure}",
+   "R " ++ dumpCell c.mesh,
+   showAttrs c]
+
+def showStateTP (s : StateTP Float) : List String :=
+  [s!"S {s.base.iter} {showF s.base.time} {s.base.cells.length}", s!"J {s.base.fileNo}", s!"I {s.maxId}"]
+    ++ ((s.base.cells.zip s.idents).flatMap fun cd => showCellTP cd.2 cd.1)
+
+def simulate (out : IO.FS.Stream) (K : ConstsTR Float) (n every : Nat) (s0 : StateTP Float) : IO Unit := do
+  let fn := Fn.float
+  let fx := FX.float
+  let P := Tissue.cparams K.base
+  out.putStrLn s!"H setup {if 0.0 ≤ K.base.delta && 0.0 < P.padding && 0.0 < P.voxel then 1 else 0}"
+  out.putStrLn s!"H endPhases {if endPhases == [Pop.Phase.stats, Pop.Phase.remove, Pop.Phase.renumber] then 1 else 0}"
+  let mut s := s0
+  let mut stop := false
+  for k in [0:n+1] do
+    if stop then break
+    if k % every == 0 || k == n then
+      for l in showStateTP s do out.putStrLn l
+    if s.base.cells.isEmpty then break
+    if k < n then
+      -- as in `tissuer`: `stepOkTP` / `tissueIterationP` are, by definition, `stepOkFromP s live ms bi` and
+      -- `ms.map (fun s1 => removalP { s with base := physFrom K s1 (bi s1) })`
+      let live := refineLiveT fn K s.base
+      let ms := meshStageT fn K s.base
+      let bi : Option (List (CellTR Float) × Bool) :=
+        match ms with
+        | .ok s1 => some (beforeIntegrationR fn fx K.base s1.cells)
+        | .error _ => none
+      let ok := stepOkFromP s live ms (fun _ => bi.getD ([], false))
+      let sv := saveMeshT fn K s.base
+      let rebased := match sv with | .ok s1 => s1.fileNo != s.base.fileNo | .error _ => false
+      let cs0 : List (CellTR Float) := match sv with | .ok s1 => s1.cells | .error _ => []
+      let logs := cs0.map fun c => PipelineR.refineLog fn (kR K c.k) (PipelineR.faceTypes (kR K c.k) c.mesh)
+      let ns := (logs.map fun l => (l.filter (fun e => e.1)).length).foldl (· + ·) 0
+      let nm := (logs.map fun l => (l.filter (fun e => !e.1)).length).foldl (· + ·) 0
+      let swaps := if K.swapOn then (cs0.map fun c => countSwaps fn (PipelineR.faceTypes (kR K c.k) c.mesh)).foldl (· + ·) 0 else 0
+      let mOk := match ms with | .ok s1 => s1.cells.all cellMeshOk | .error _ => false
+      let ncoup := match bi with
+        | some r => (r.1.map fun (c : CellTR Float) => ((List.range c.mesh.nodes.size).filter fun i => usedN c.mesh i && (c.a.coup.getD i none).isSome).length).foldl (· + ·) 0
+        | none => 0
+      let nsq := match bi with
+        | some r => (r.1.map fun (c : CellTR Float) => ((List.range c.mesh.nodes.size).filter fun i => usedN c.mesh i && c.a.sqd.getD i 0 != dblMax).length).foldl (· + ·) 0
+        | none => 0
+      match ms, bi with
+      | .ok s1, some r =>
+        let b := physFrom K s1 r
+        let rm := removedPositions b.cells
+        let s' := removalP { s with base := b }
+        -- stale couplings the survivors carry into the next iteration
+        let first := rm.headD b.cells.length
+        let cnt (p : Nat → Bool) : Nat := (s'.base.cells.map fun (c : CellTR Float) => ((List.range c.mesh.nodes.size).filter fun i =>
+            usedN c.mesh i && (match c.a.coup.getD i none with | some q => p q.1 | none => false)).length).foldl (· + ·) 0
+        let toRemoved := cnt fun q => rm.contains q
+        let toMoved := cnt fun q => !rm.contains q && q > first
+        out.putStrLn s!"O {s.base.iter} {b01 ok} {b01 live} {b01 mOk} {ns} {nm} {b01 rebased} {swaps} {ncoup} {nsq} {rm.length} {toRemoved} {toMoved} ;{rm.foldl (fun a i => a ++ s!" {i}") ""}"
+        s := s'
+      | .error e, _ =>
+        out.putStrLn s!"O {s.base.iter} {b01 ok} {b01 live} {b01 mOk} {ns} {nm} {b01 rebased} {swaps} {ncoup} {nsq} 0 0 0 ;"
+        out.putStrLn s!"X {e.name}"
+        stop := true
+      | _, _ => stop := true
+  out.putStrLn "END"
+
+end TissuePDrv
+
+/-! ### tissue with remeshing, division round (recorded daughters) and removal -/
+namespace TissueDDrv
+open Simu.Remesh Simu.TissueR Simu.TissueP Simu.TissueD TissueDrv RemeshDrv TissueRDrv TissuePDrv
+
+structure Fresh where
+  id : Nat
+  area : Float
+  volume : Float
+  tvol : Float
+  pressure : Float
+  mesh : Remesh.Cell Float
+  a : Attrs Float
+
+structure DSRec where
+  iter : Nat
+  ids : List Nat
+  fresh : List Fresh
+
+def pFresh : P Fresh := do
+  let id ← pNat; let area ← pF; let volume ← pF; let tvol ← pF; let pressure ← pF
+  let mesh ← pCellR
+  expect "|"
+  let att ← pMany mesh.nodes.size pAttr
+  pure ⟨id, area, volume, tvol, pressure, mesh, ⟨att.map (·.1), att.map (·.2.1), att.map (·.2.2.1), att.map (·.2.2.2.1), att.map (·.2.2.2.2)⟩⟩
+
+def pDS : P DSRec := do
+  expect "DS"
+  let it ← pNat; let nids ← pNat; let ids ← pMany nids pNat; let nf ← pNat; let fr ← pMany nf pFresh
+  pure ⟨it, ids.toList, fr.toList⟩
+
+def pTissueD : P (ConstsTR Float × Nat × Nat × StateTP Float × List DSRec) := do
+  let n ← pNat; let every ← pNat; let nc ← pNat; let sw ← pNat
+  if every == 0 then failure
+  let dt ← pF; let damping ← pF; let lmin ← pF; let cutAdh ← pF; let cutRep ← pF; let sp ← pF
+  let it ← pNat; let fileNo ← pNat; let maxId ← pNat; let time ← pF
+  let cells ← pMany nc (do let id ← pNat; let lid ← pNat; let c ← pCellTR; pure ((⟨id, lid⟩ : Ident), c))
+  expect "DSN"
+  let k ← pNat
+  let recs ← pMany k pDS
+  let i ← get
+  if i ≠ (← read).size then failure
+  let K : Tissue.Consts Float :=
+    { dt := dt, damping := damping, lmin := lmin, cutAdh := cutAdh, cutRep := cutRep,
+      dotAdh := cosDeg Gen.dotAdhDeg1, dotRep := cosDeg Gen.dotRepDeg1, big := dblMax, inf := dblInf, delta := Gen.gridDeltaFloat }
+  pure ({ base := K, samplingPeriod := sp, swapOn := sw != 0, maxIter := 1000000 }, n, every,
+        { base := { iter := it, time := time, fileNo := Int.ofNat fileNo, cells := (cells.toList.map (·.2)), defined := true },
+          idents := cells.toList.map (·.1), maxId := maxId }, recs.toList)
+
+/-- the successful divisions of the round from the record: the mothers are the cells of the list (after `save_mesh`) whose id is not in
+    the list the divider left, in list order; the j-th one gets the fresh cells with the ids `maxId + 2j`, `maxId + 2j + 1` -/
+def eventsOf (s : StateTP Float) (cells : List (CellTR Float)) (r : DSRec) : Option (List (DivEv Float)) :=
+  let gone := ((cells.zip s.idents).zipIdx.filter fun p => !r.ids.contains p.1.2.cellId)
+  let find (id : Nat) (m : CellTR Float) : Option (CellTR Float) :=
+    (r.fresh.find? fun f => f.id == id).map fun f =>
+      { k := m.k, mesh := f.mesh, a := f.a, area := f.area, volume := f.volume, tvol := f.tvol, pressure := f.pressure }
+  gone.zipIdx.mapM fun (p, j) => do
+    let d1 ← find (s.maxId + 2 * j) p.1.1
+    let d2 ← find (s.maxId + 2 * j + 1) p.1.1
+    pure (⟨p.2, d1, d2⟩ : DivEv Float)
+
+def simulate (out : IO.FS.Stream) (K : ConstsTR Float) (n every : Nat) (s0 : StateTP Float) (recs : List DSRec) : IO Unit := do
+  let fn := Fn.float
+  let fx := FX.float
+  let P := Tissue.cparams K.base
+  out.putStrLn s!"H setup {if 0.0 ≤ K.base.delta && 0.0 < P.padding && 0.0 < P.voxel then 1 else 0}"
+  out.putStrLn s!"H endPhases {if endPhases == [Pop.Phase.stats, Pop.Phase.remove, Pop.Phase.renumber] then 1 else 0}"
+  let mut s := s0
+  let mut stop := false
+  for k in [0:n+1] do
+    if stop then break
+    if k % every == 0 || k == n then
+      for l in showStateTP s do out.putStrLn l
+    if s.base.cells.isEmpty then break
+    if k < n then
+      let sv := saveMeshT fn K s.base
+      match sv with
+      | .error e =>
+        out.putStrLn s!"X {e.name}"
+        stop := true
+      | .ok b1 =>
+        let rebased := b1.fileNo != s.base.fileNo
+        let nready := if dividesNow b1.iter then (b1.cells.filter readyD).length else 0
+        let rec? := recs.find? fun r => r.iter == b1.iter
+        let ev? : Option (List (DivEv Float)) := match rec? with | some r => eventsOf s b1.cells r | none => some []
+        match ev? with
+        | none =>
+          out.putStrLn s!"X bad-record"
+          stop := true
+        | some ev =>
+          let s2 := divisionRoundD { s with base := b1 } ev
+          if rec?.isSome then
+            out.putStrLn s!"DS {b1.iter}"
+            for l in (showStateTP s2).drop 1 do out.putStrLn l
+            out.putStrLn "DE"
+          let live := s2.base.cells.all fun c => refineLiveCell fn K c && replayOk fn K c
+          let ms := refineStageT fn K s2.base
+          let bi : Option (List (CellTR Float) × Bool) :=
+            match ms with
+            | .ok b3 => some (beforeIntegrationR fn fx K.base b3.cells)
+            | .error _ => none
+          let ok := stepOkFromD s ev sv (fun _ => live) (fun _ => ms) (fun _ => bi.getD ([], false))
+          let logs := s2.base.cells.map fun c => PipelineR.refineLog fn (kR K c.k) (PipelineR.faceTypes (kR K c.k) c.mesh)
+          let ns := (logs.map fun l => (l.filter (fun e => e.1)).length).foldl (· + ·) 0
+          let nm := (logs.map fun l => (l.filter (fun e => !e.1)).length).foldl (· + ·) 0
+          match ms, bi with
+          | .ok b3, some r =>
+            let b := physFrom K b3 r
+            let rm := removedPositions b.cells
+            out.putStrLn s!"O {s.base.iter} {b01 ok} {nready} {ev.length} {rm.length} {ns} {nm} {b01 rebased}"
+            s := removalP { s2 with base := b }
+          | .error e, _ =>
+            out.putStrLn s!"O {s.base.iter} {b01 ok} {nready} {ev.length} 0 {ns} {nm} {b01 rebased}"
+            out.putStrLn s!"X {e.name}"
+            stop := true
+          | _, _ => stop := true
+  out.putStrLn "END"
+
+end TissueDDrv
+
 partial def loop (h : IO.FS.Stream) (out : IO.FS.Stream) : IO Unit := do
   let line ← h.getLine
   if line.isEmpty then return ()
@@ -487,6 +714,14 @@ partial def loop (h : IO.FS.Stream) (out : IO.FS.Stream) : IO Unit := do
   | "runr" :: args =>
     match (RemeshDrv.pRunR.run 0).run args.toArray with
     | some ((K, n, every, s), _) => RemeshDrv.simulate out K n every s
+    | none => out.putStrLn "bad-op"
+  | "tissued" :: args =>
+    match (TissueDDrv.pTissueD.run 0).run args.toArray with
+    | some ((K, n, every, s, recs), _) => TissueDDrv.simulate out K n every s recs
+    | none => out.putStrLn "bad-op"
+  | "tissuep" :: args =>
+    match (TissuePDrv.pTissueP.run 0).run args.toArray with
+    | some ((K, n, every, s), _) => TissuePDrv.simulate out K n every s
     | none => out.putStrLn "bad-op"
   | "tissuer" :: args =>
     match (TissueRDrv.pTissueR.run 0).run args.toArray with
